@@ -12,7 +12,7 @@ from .core import HarnessError
 TIERS = {
     # per property: (number of runs, wall budget for the search phase in seconds)
     "quick": {"C03": (900, 150), "C12": (600, 150), "C20": (160, 150)},
-    "thorough": {"C03": (6000, 1500), "C12": (5000, 1500), "C20": (2500, 1500)},
+    "thorough": {"C03": (12000, 1800), "C12": (10000, 1800), "C20": (4000, 1800)},
 }
 
 
